@@ -144,7 +144,7 @@ def judge(R, sess, name, text, model_recs, label):
     R.count(label, "entry:" + name, "style:" + sess.opening, "eol:" + sess.le.replace("\\", "\\\\"),
             "text:" + ("has-CR/LF" if any(c in text for c in "\r\n") else "no-CR/LF"),
             "text:" + ("has-closing-delimiter" if sess.closing and sess.closing in text else "no-closing-delimiter"),
-            "outcome:" + (exc or "ok"))
+            "outcome:" + (exc or "ok"), *("text:" + f for f in F.text_features(text, sess.closing)))
     # ---- correspondence
     if model_recs:
         impl_rec = exc or observe(raw, sess.opening, sess.closing)
@@ -188,7 +188,14 @@ ATOMS = (["\r", "\n", "\r\n", "\n\r", "\x85", " ", " ", "\x0b", "\x0c", "\t"
                      "a", "B", "0", "-1.5", ".", "@set k = v", "\x00", "\x7f"])
 
 
-def gen_text(rng, closing):
+def gen_text(rng, closing, opening=";"):
+    if rng.random() < 0.14:
+        # compatibility look-alikes of the delimiters / of line breaks, closers nested in themselves or split by
+        # something removable - in front of executable-looking words (fmt_common.adversarial_text)
+        t = F.adversarial_text(rng, opening, closing)
+        if rng.random() < 0.2:
+            t = t + rng.choice(["\n", "\r\n", " "]) + F.adversarial_text(rng, opening, closing)
+        return t
     if rng.random() < 0.08:
         # a long multi-line message (report, traceback): many separate runs of line breaks, payload after each;
         # any per-call budget of substitutions (8, 16, 32, 64 ...) is exceeded
@@ -241,7 +248,11 @@ def run_batch(R, triples, label, fresh, oracle_only=False):
 
 CORPUS = ["x\nM3 S1000", "a\rG1 X9", "a\r\nG1 X9", "a) G1 X5 (b", "a ] G1 X5 [", "b } G1 X5 {", "c > G1 X5 <",
           'd " G1 X5 "', "e ' G1 X5 '", "f */ G1 X5 /*", "**//", "*/*/", "* /", "trail  \r", "\n", "\r\n\r\n", "",
-          "   ", "{} {0} %s", "x\x85G1 X9", "x G1 X9", "x\x0bG1 X9", "x\x0cG1 X9", "tab\there", "é✓", "; G1 X9", "( G1 X9 )"]
+          "   ", "{} {0} %s", "x\x85G1 X9", "x G1 X9", "x\x0bG1 X9", "x\x0cG1 X9", "tab\there", "é✓", "; G1 X9", "( G1 X9 )",
+          # look-alikes (full-width / small forms) of every closing symbol, closers nested in themselves, line boundaries
+          # other than CR / LF (see fmt_common.adversarial_text for the generated family)
+          "a\uff09 \uff3d \uff5d \uff1e \uff0a\uff0f G1 X5", "b \ufe5a \ufe5c \ufe65 *\uff0f \uff0a/ M3 S1000 \uff1b",
+          "c )) ]] }} >> ***/// */*/ G1 X5", "x\u2028G1 X9\u2029M3 S1000\x1cM112"]
 
 
 def run(R: core.Run):
@@ -274,7 +285,7 @@ def run(R: core.Run):
     triples = []
     for _ in range(R.n(6000, 200000)):
         sym = rng.choice(F.ALL_SYMBOLS + [" ; ", "( "])
-        triples.append((sym, rng.choice(EOLS), rng.choice(names), gen_text(rng, F.style_of(sym)[1])))
+        triples.append((sym, rng.choice(EOLS), rng.choice(names), gen_text(rng, F.style_of(sym)[1], F.style_of(sym)[0])))
     fresh_n = R.n(600, 5000)
     run_batch(R, triples[:fresh_n], "random:fresh-builder", fresh=True)
     for i in range(fresh_n, len(triples), 50000):
@@ -309,7 +320,7 @@ def run(R: core.Run):
         more = []
         for _ in range(R.n(6000, 40000)):
             sym = rng.choice(F.ALL_SYMBOLS)
-            more.append((sym, rng.choice(EOLS), rng.choice(names), gen_text(rng, F.style_of(sym)[1])))
+            more.append((sym, rng.choice(EOLS), rng.choice(names), gen_text(rng, F.style_of(sym)[1], F.style_of(sym)[0])))
         run_batch(R, more, "search", fresh=False, oracle_only=True)
     return {}, {}
 
